@@ -1131,7 +1131,8 @@ def check_C18(tier, seed, replay):
     hists = keep if not replay else hists
     # "+wide": the same histories with the prefixes spelled in multi-byte characters
     # "+crlf": the two valid grammars differ in nothing but their line endings, one of which lies inside a literal
-    modes = ["file", "dest", "dir", "file+wide", "dirlink", "file+crlf"]
+    # "+dots": the grammar file is called gram.mar.v2.ebnf (and has a sibling gram.ebnf in directory mode)
+    modes = ["file", "dest", "dir", "file+wide", "dirlink", "file+crlf", "file+dots", "dir+dots"]
     d = vlib.famdir("buildscript", tier)
     cf = os.path.join(d, "histories.tsv")
     lines = []
@@ -1141,9 +1142,11 @@ def check_C18(tier, seed, replay):
                 continue
             if m == "file+crlf" and ("e:g" not in hl or hl.count("r") < 2 or "p:" in hl):
                 continue
+            if m.endswith("+dots") and (hl.count("r") < 2 or "p:" in hl):
+                continue
             if m == "dirlink" and ("p:" in hl or hl.count("r") < 2):
                 continue      # (the symbolic-link variant: histories with two or more runs, default prefix)
-            if m in ("dir", "dirlink") and ("e:missing" in hl or "i:missing" in hl):
+            if m in ("dir", "dirlink", "dir+dots") and ("e:missing" in hl or "i:missing" in hl):
                 continue      # in directory mode a missing grammar file is simply not visited
             if fmt and not m.startswith("file"):
                 continue      # formatting is orthogonal to where the destination is
@@ -1537,6 +1540,34 @@ def check_C15(tier, seed, replay):
             res.add(Violation("C15", "Verdict", "Compile::directory answers %s for %s although %s" % (
                 "Ok" if got == "code" else "Err", name, "one grammar of the directory is invalid" if expect == "error" else "all grammars are valid"),
                 None, {"name": name, "site": "compiledir:" + name, "observed": r}))
+    # the same grammars through the library in ONE process, rejected ones first and last: what a process answered
+    # before must not change an answer (a long-lived build script, a language server)
+    if not replay:
+        def seq_run(order):
+            argv = [front, "libseq"]
+            for k_ in order:
+                gid, name, text, derives, expect, answer_only = cases[k_]
+                argv += [os.path.join(tdir, gid + ".ebnf"), "-" if derives is None else (",".join(derives) or "-")]
+            r_ = run_door(argv, timeout=600)
+            if door_failure(r_) or r_["code"] != 0:
+                res.add(Violation("C15", "Answers", "compiling %d grammars in one process %s" % (len(order), door_failure(r_) or "fails"), None,
+                                  {"name": "libseq", "site": "libseq"}))
+                return None
+            return r_["out"].split("\n")
+        idx = [k_ for k_ in range(len(cases)) if cases[k_][3] != []]      # (the empty derive set cannot be written on this command line)
+        bad_first = sorted(idx, key=lambda k_: (outs[k_]["lib"]["out"].startswith("code"), k_))
+        for label, order in (("rejected grammars first", bad_first), ("in corpus order, twice", idx + idx)):
+            lines_ = seq_run(order)
+            if lines_ is None:
+                continue
+            for k_, ln_ in zip(order, lines_):
+                fresh = "code" if outs[k_]["lib"]["out"].startswith("code") else "error"
+                got_ = ln_.split(" ")[0]
+                if got_ != fresh:
+                    res.add(Violation("C15", "Verdict", "the library answers %s for grammar %s after other grammars were compiled in the same process "
+                                      "(%s); a fresh process answers %s" % (got_, cases[k_][1], label, fresh), None,
+                                      {"name": cases[k_][1], "site": "libseq:" + cases[k_][1], "grammar": cases[k_][2]}))
+                    break
     nontriv = 0
     for (gid, name, text, derives, expect, answer_only), o in zip(cases, outs):
         if expect == "error":
